@@ -159,6 +159,17 @@ func run(c string) (obs string) {
 		if u.AsBigInt().Cmp(bu) != 0 || i.AsBigInt().Cmp(bi) != 0 {
 			verbs = 0
 		}
+		// ToBigInt into a destination that already holds something large
+		reuse := new(big.Int).Lsh(big.NewInt(-5), 200)
+		u.ToBigInt(reuse)
+		if reuse.Cmp(bu) != 0 {
+			verbs = 0
+		}
+		reuse = new(big.Int).Lsh(big.NewInt(7), 300)
+		i.ToBigInt(reuse)
+		if reuse.Cmp(bi) != 0 {
+			verbs = 0
+		}
 		return fmt.Sprintf("us=%s is=%s rt=%d verbs=%d uf=%s if=%s nar=%s,%s,%d,%s,%s,%d,%s,%d", u.String(), i.String(), rt, verbs,
 			exactFloat(u.AsFloat64()), exactFloat(i.AsFloat64()),
 			hx.B2i(u.IsInt128()), hx.B2i(u.IsUint64()), u.AsUint64(), hx.B2i(i.IsUint128()), hx.B2i(i.IsInt64()), i.AsInt64(), hx.B2i(i.IsUint64()), i.AsUint64())
@@ -234,7 +245,8 @@ func gen(r *hx.Rand, n int) []string {
 			case 0:
 				s = []string{"", "-", "+", "--1", "1-", "1 2", " 1", "1 ", "12a", "0x", "1e", "e5", "1.5", "١٢", "1__2", "_1", "0b2", "1.5e0", "1e-1"}[r.Intn(19)]
 			case 1:
-				s = []string{"0x10", "0X1f", "0b101", "0o17", "017", "1_000", "+5", "-0", "1e3", "12E2", "1.5e1", "-2e2", "0x_1"}[r.Intn(13)]
+				s = []string{"0x10", "0X1f", "0b101", "0o17", "017", "1_000", "+5", "-0", "1e3", "12E2", "1.5e1", "-2e2", "0x_1",
+					"-15e-1", "-2.5e0", "-1.25E1", "25e-1", "-120e-1", "120e-1", "-1e-3", "1e40", "-1e40", "3.000e2", "-0.5e1"}[r.Intn(24)]
 			case 2:
 				s = "340282366920938463463374607431768211455"
 				if r.Bool() {
